@@ -79,10 +79,18 @@ func (d *driver) run() {
 	d.sum.ErrFrom = map[string]int{}
 	d.sum.Fam = map[string][]int{}
 
+	t0 := time.Now()
+	phase := func(name string) {
+		if os.Getenv("C01_DEV_DUMP") != "" {
+			fmt.Fprintf(os.Stderr, "phase %s done at %.1fs\n", name, time.Since(t0).Seconds())
+		}
+	}
 	bases := d.collectBases()
 	bases = d.phase0(bases)
+	phase("bounds")
 	cases := buildCases(e, bases)
 	jobs := shard(bases, cases, e.Pick(400, 1500))
+	phase("cases")
 
 	type jobOut struct{ accepted []string }
 	accepted := make([][]string, len(jobs))
@@ -90,6 +98,7 @@ func (d *driver) run() {
 		accepted[i] = d.runJob(i, jobs[i])
 	})
 
+	phase("lexparse")
 	// run-after-accept on the real CLI
 	byID := map[string]cspec{}
 	for _, c := range cases {
@@ -110,6 +119,7 @@ func (d *driver) run() {
 		d.runAccepted(bases, runList[i])
 	})
 
+	phase("run")
 	// one violation per key, with the smallest input that shows it
 	sort.Slice(d.failures, func(i, j int) bool {
 		a, b := d.failures[i], d.failures[j]
@@ -154,6 +164,11 @@ func (d *driver) run() {
 		"inputs above 64 KiB are not explored",
 		"run-after-accept judges only nil-dereference / nil-interface Go panics of accepted mutants of generated side-effect-free programs")
 
+	if dump := os.Getenv("C01_DEV_DUMP"); dump != "" {
+		// development aid: the monitor observations, in case evidence/ is rewritten by someone else
+		b, _ := json.MarshalIndent(map[string]any{"summary": d.sum, "run": d.runStats, "others": d.others, "deaths": d.deaths, "nontriv": d.nontriv.N()}, "", " ")
+		_ = os.WriteFile(dump, b, 0o644)
+	}
 	var samples []any
 	for i := 0; i < len(cases) && len(samples) < 6; i += 1 + len(cases)/6 {
 		samples = append(samples, map[string]any{"id": cases[i].ID, "input": quoteBytes(materialiseSafe(bases, cases[i]), 120)})
